@@ -78,7 +78,7 @@ def transform(ex, crate):
         f = "%s/%s.rs" % (d, name) if os.path.exists("%s/%s.rs" % (d, name)) else "%s/%s/mod.rs" % (d, name)
         return '%s#[path = "%s"] %smod %s;' % (m.group(1), f, m.group(2) or "", name)
     src = re.sub(r"(?m)^([ \t]*)(pub(?:\([a-z]+\))?[ \t]+)?mod[ \t]+(\w+)[ \t]*;", mod_path, src)
-    src, n_main = re.subn(r"(?m)^fn[ \t]+main[ \t]*\([ \t]*\)", "fn verif_example_main()", src)
+    src, n_main = re.subn(r"(?m)^(?:pub(?:\([a-z]+\))?[ \t]+)?fn[ \t]+main[ \t]*\([ \t]*\)", "fn verif_example_main()", src)
     src, n_parse = re.subn(r"\b(\w+)::parse\(\)", r"\1::parse_from(verif_srv::argv())", src)
     if n_main != 1 or n_parse != 1:
         return None, "main.rs has %d `fn main()` and %d `::parse()` (exactly one of each expected)" % (n_main, n_parse)
